@@ -5,6 +5,11 @@ V = os.path.dirname(os.path.dirname(os.path.abspath(__file__)))
 ALL = ["C%02d" % i for i in range(1, 20)]
 TECH = "symbolic execution of the real /repo source on z3 bit-vector proxies (symx), per-path SMT queries, concrete replay"
 CLAIMED = {
+ "C13": dict(text="Bounded symbolic verification: every facade method x defining set x subsets of its documented optional "
+                  "keyword arguments (parsed from the current docstrings), argument values and device-written payload "
+                  "symbolic; z3 decides CDB positions/defaults and that cmd.result equals an independent decode of the "
+                  "device-left bytes.", ref="3/C13",
+             note="one small well-formed response per command (<= 64 symbolic bytes); recording device"),
  "C07": dict(text="Bounded symbolic verification of both real device classes and all 38 facade methods over stub bindings: the "
                   "status byte (all 256 values), the binding outcome and every sense byte are solver variables; per path z3 "
                   "decides 'normal return => GOOD', CheckCondition carries the target's key/ASC/ASCQ, named errors, no "
